@@ -334,7 +334,7 @@ var ctrNames = []string{"histories", "publishes", "targets", "results_updated", 
 	"patches_applied", "list_requests_page1", "list_requests_later_page", "external_changes",
 	"target_ech_absent", "target_ech_quoted", "target_ech_unquoted", "target_ech_twice",
 	"target_value_quoted_space", "target_value_quoted_space_ech_lookalike", "target_value_empty", "target_value_double_space",
-	"nochange_when_current", "updated_validated", "lenient_after_zone_failure", "lenient_ech_twice", "zones_3_pages", "zones_2_pages", "zones_1_page"}
+	"nochange_when_current", "updated_validated", "lenient_after_zone_failure", "lenient_ech_twice", "zones_3_pages", "zones_2_pages", "zones_1_page", "histories_with_sparse_json"}
 
 type counters struct {
 	idx map[string]int
@@ -444,6 +444,11 @@ func runHistory(r *mon.Run, vc *vcoll, ctr *counters, i int, rng *mrand.Rand) {
 	srv := cfapi.New("token")
 	defer srv.Close()
 	srv.SetZones(h.zones)
+	// every third history: the API leaves out JSON members that hold a zero value ("" , 0, false, null, [])
+	if i%3 == 2 {
+		srv.SetSparse(true)
+		ctr.add("histories_with_sparse_json", 1)
+	}
 	model := srv.Snapshot()
 	pub := publish.NewCloudflarePublisher("token")
 	pub.VerifSetBaseURL(srv.BaseURL())
